@@ -679,11 +679,15 @@ M.contract(P_RS + ':HereDocParser._parse_from_start_str',
            ensures={
                'marker-syntax': lambda here_doc_start: here_doc_start.startswith('<<') and len(here_doc_start) >= 3,
                'rest-of-the-header-line-is-blank': lambda old: current_line_rest(old[1], old[0]).strip() == '',
-               'contents-start-on-the-next-line-and-end-before-the-marker-line':
+               'contents-start-on-the-next-line-and-end-before-the-marker-line': (
                    lambda here_doc_start, token_parser, old, trace:
                    len(split_events(trace)) == 1 and
                    split_events(trace)[0][1]['s'] == old[1][old[0] + len(current_line_rest(old[1], old[0])) + 1:
                                                             _hd_pos(token_parser) - len(here_doc_start[2:])],
+                   'internal'),
+               'split-event': (lambda here_doc_start, token_parser, old, trace: trace.append(
+                   ('split', {'s': old[1][old[0] + len(current_line_rest(old[1], old[0])) + 1:
+                                          _hd_pos(token_parser) - len(here_doc_start[2:])]})), 'effect'),
                'stops-at-the-end-of-the-marker-line': lambda here_doc_start, token_parser, old:
                current_line_rest(old[1], _hd_pos(token_parser) - len(here_doc_start[2:])) == here_doc_start[2:],
            },
@@ -1194,7 +1198,7 @@ sys.exit(1 if actual != reference_split(s) else 0)
 def _bounded_split(ctx):
     import itertools
     alphabet = '@[]a_-é'
-    max_len = 8 if ctx.tier == 'thorough' else 6
+    max_len = 8 if ctx.tier == 'thorough' else 7
     failures = []
     cases = 0
     for n in range(0, max_len + 1):
